@@ -2,7 +2,7 @@
    Only ExtrOcamlBasic's directives are used; numbers stay as extracted inductives. *)
 Require Extraction.
 Require Import ExtrOcamlBasic.
-From RxModel Require Import Derived Ops2 Subject GroupBy Flatten Timed Async Subscr Finalize Fin Pipe Indep Share.
+From RxModel Require Import Derived Ops2 Subject GroupBy Flatten Timed Async Subscr Finalize Fin Pipe Indep Share Convert.
 From RxSpec Require Import DerivedSpec Ops2Spec SubjectSpec BehaviorSpec GroupBySpec FlattenSpec TimedSpec SubscrSpec FinalizeSpec.
 Extraction Language OCaml.
 Extraction "model.ml"
@@ -20,4 +20,5 @@ Extraction "model.ml"
   run_iter_case run_stream_case run_interval_case
   exec idiom_log
   run_share
+  run_future run_stream wrun waiter_safe w_flag
   sub_runs nested_run lscript factory_calls is_iter calls_after.
